@@ -10,6 +10,10 @@ import (
 // genRouteRest: a further Route entry with the decorations the property lists.
 func genRouteRest(L int, i int) string {
 	e := ""
+	if rt.Param("RD") == 2 {
+		// long route sets: the layout is what varies, the entries are fixed
+		return "<sip:u" + itoa(i) + "@10.0.3." + itoa(10+i) + ";lr>"
+	}
 	if rt.Param("RD") == 0 {
 		return "<sip:" + rt.Str("ruser", clsUser, 1, L) + "@10.0.3." + itoa(10+i) + ";lr>"
 	}
@@ -48,10 +52,20 @@ func VC13_Route() {
 	w := newWorld(worldOpts{nBackends: 1, keepNextHop: keep,
 		hosts: map[string]string{"proxy.example.com": wListenAddr, "other.example.com": "10.0.0.8"}})
 	n := rt.Choice("nroute", N+1)
+	firstKinds := 7
+	if rt.Param("RD") == 2 {
+		// long route sets (property: up to 6 entries): N-1 or N entries, first entry the listener's address or a foreign hop
+		n = N - rt.Choice("nroute", 2)
+		firstKinds = 2
+	}
 	var entries []string
 	ownFirst := false
 	if n > 0 {
-		switch rt.Choice("first", 7) {
+		fk := rt.Choice("first", firstKinds)
+		if firstKinds == 2 && fk == 1 {
+			fk = 4
+		}
+		switch fk {
 		case 0:
 			entries, ownFirst = append(entries, "<sip:"+wListenAddr+":5060;lr>"), true
 		case 1:
@@ -74,9 +88,17 @@ func VC13_Route() {
 	head := "Via: SIP/2.0/UDP 10.0.2.2:5060;branch=z9hG4bKa\r\n"
 	for i, e := range entries {
 		if i > 0 && rt.Bool("comma") {
-			head = head[:len(head)-2] + []string{",", ", ", " ,\t "}[rt.Choice("comma-blanks", 3)] + e + "\r\n"
+			sep := ", "
+			if rt.Param("RD") != 2 {
+				sep = []string{",", ", ", " ,\t "}[rt.Choice("comma-blanks", 3)]
+			}
+			head = head[:len(head)-2] + sep + e + "\r\n"
 		} else {
-			head += []string{"Route", "ROUTE", "route"}[rt.Choice("routename", 3)] + ": " + e + "\r\n"
+			name := "Route"
+			if rt.Param("RD") != 2 {
+				name = []string{"Route", "ROUTE", "route"}[rt.Choice("routename", 3)]
+			}
+			head += name + ": " + e + "\r\n"
 		}
 	}
 	text := "INVITE sip:bob@" + wService + " SIP/2.0\r\n" + head +
